@@ -533,3 +533,38 @@ Definition run_play (inp : list Z) : list Z :=
       end
   | _ => bad_input
   end.
+
+(* ---- component of C16: edit / observe histories on a MidiFile ---- *)
+Require Import Mido.Model.FileCache.
+Definition mk_ev (t b uid : Z) : ev := {| time := t; eot := negb (b =? 0); trk := Z.to_nat uid; idx := 0 |}.
+Fixpoint in_evs (n : nat) (l : list Z) : list ev * list Z :=
+  match n, l with
+  | S k, t :: b :: u :: r => let '(es, r') := in_evs k r in (mk_ev t b u :: es, r')
+  | _, _ => ([], l)
+  end.
+Definition out_evs (m : list ev) : list Z :=
+  zlen m :: flat_map (fun e => [time e; if eot e then 1 else 0; Z.of_nat (trk e)]) m.
+Fixpoint run_fops (fuel : nat) (memo : bool) (s : fstate) (l : list Z) : list Z :=
+  match fuel with
+  | O => []
+  | S f =>
+    match l with
+    | [] => []
+    | 0 :: n :: r => let '(es, r') := in_evs (Z.to_nat n) r in run_fops f memo (apply_edit memo s (EAppendTrack es)) r'
+    | 1 :: i :: r => run_fops f memo (apply_edit memo s (ERemoveTrack (Z.to_nat i))) r
+    | 2 :: r => run_fops f memo (apply_edit memo s EAddTrack) r
+    | 3 :: i :: j :: t :: b :: u :: r => run_fops f memo (apply_edit memo s (EInsertMsg (Z.to_nat i) (Z.to_nat j) (mk_ev t b u))) r
+    | 4 :: i :: j :: r => run_fops f memo (apply_edit memo s (EDelMsg (Z.to_nat i) (Z.to_nat j))) r
+    | 5 :: i :: j :: t :: r => run_fops f memo (apply_edit memo s (ESetTime (Z.to_nat i) (Z.to_nat j) t)) r
+    | 6 :: z :: r => run_fops f memo (apply_edit memo s (ESetType z)) r
+    | 7 :: z :: r => run_fops f memo (apply_edit memo s (ESetTpb z)) r
+    | 9 :: r => let '(s', o) := observe memo s in
+                (match o with Ok m => 0 :: out_evs m | Raise e => [-1; exn_code e] end) ++ [-9] ++ run_fops f memo s' r
+    | _ => bad_input
+    end
+  end.
+Definition run_file_hist (inp : list Z) : list Z :=
+  match inp with
+  | ty :: tpb :: r => run_fops (length r) false (fresh ty tpb []) r
+  | _ => bad_input
+  end.
